@@ -1491,7 +1491,9 @@ def tokenizer_tables_translate():
     try:
         return c02_tables.translate()
     except TranslateError as first:
-        orig = c02_tables._escape_pipeline
+        orig = getattr(c02_tables, '_escape_pipeline', None)
+        if orig is None:
+            raise first
         c02_tables._escape_pipeline = lambda tree, inv_map: ([], {})
         try:
             text, side = c02_tables.translate()
@@ -1752,6 +1754,7 @@ def run(ck: Ck) -> None:
         ck.explain('instance:no_store_to_tree')
         ck.explain('instance:no_mutating_call')
         ck.explain('instance:writer_program_has_no_store')
+        ck.explain('instance:writer_program_writes_are')
         ck.explain('instance:all_nine_hypotheses')
 
 
